@@ -1,0 +1,5 @@
+//go:build !verif
+
+package io
+
+func verifPoint(side, point int, owner *int32, blockID int32, observed int32) {}
